@@ -2,6 +2,7 @@ import NbioVerif.Lemmas.WsRoundTrip
 import NbioVerif.Lemmas.WsMaskProof
 import NbioVerif.Lemmas.WsTrunc
 import NbioVerif.Lemmas.WsHandshake
+import NbioVerif.Lemmas.WsUpProof
 /-! C12 — WebSocket message round trip: framing, masking, fragmentation, compression.
 
     Sender: `Ws.writeMessage` (WriteMessage / writeFrame) on an endpoint with configuration `gs` and environment `es`
@@ -86,6 +87,17 @@ theorem c12_truncWriter (cs : List Bytes) :
 theorem c12_segmentation (g : Cfg) (e : Env) (hl : g.readLimit = 0) (segs : List Bytes) :
     (feed g e {} segs []).obs = (feed g e {} [segs.flatten] []).obs :=
   feed_segmentation g e hl segs {} (by intro _; simp [msgLen, K.len]) (by simp [nextFrame, decodeHdr])
+
+/-- C12 (upgrade hand-off, client side): for every 101 response `head` (it starts with `HTTP/1.1 101 ` and ends with its first
+    CR LF CR LF) and every websocket byte string `ws` behind it, feeding `head ++ ws` to the client connection's parser
+    (`Model/WsUp.lean: upFeed`, what the driver runs on `H` lines) in ANY segmentation — the end of the response and the
+    first frames in the same read, a cut inside the final CR LF CR LF, byte by byte — gives the same callbacks, replies,
+    error and final state as one `Conn.Parse` call on `ws`; so every theorem about `feed` applies behind a hand-off -/
+theorem c12_handoff (g : Cfg) (e : Env) (hl : g.readLimit = 0) (head ws : Bytes)
+    (hpre : (head ++ ws).take 13 = statusPrefix) (hend : headEnd head = some head.length)
+    (segs : List Bytes) (hsegs : segs.flatten = head ++ ws) :
+    (upFeed g e {} segs []).2.obs = (feed g e {} [ws] []).obs :=
+  upFeed_handoff g e hl head ws hpre hend segs hsegs
 
 /-! ### the opening handshake decides the configuration (Model/WsHandshake.lean) -/
 
